@@ -242,7 +242,7 @@ impl Property for C06 {
 
     fn rule(&self) -> String {
         "a statement of every kind (plain, DISTINCT, LIMIT n, aggregate +- HAVING, join) over a generated table (JSON or regex flavour, optional NOT NULL column) x base lines x noise lines that are \
-         non-admitted by construction (text matching no pattern, empty line, near-miss, JSON with only nulls / wrong-typed leaves / missing NOT NULL field) x insertion positions, on the queried input \
+         non-admitted by construction (text matching no pattern, empty line, near-miss, JSON with only nulls / wrong-typed leaves / missing NOT NULL field ; one case in sixty: a near-miss of 4 KiB - 128 KiB of padding followed by a complete row; tables with a DEFAULT column admit every line unless their NOT NULL column is NULL) x insertion positions, on the queried input \
          and on the joined file. Oracle (metamorphic): the captured batch output (FileExecutor, JSON) and the per-line (follow path) transcript are identical with and without the noise. \
          A quarter of the cases use a free-form definition instead (C01's generator: several patterns, split / match modes, inline patterns, arrays, multi-group timestamps, \
          NOT NULL / DEFAULT / TRIM in any combination): the reference extraction model sorts generated lines and their near-misses into admitted and non-admitted by the property's rule, the implementation must agree \
@@ -286,9 +286,29 @@ impl Property for C06 {
                 noise.push((t.draw(base.len() + 1), l));
             }
         }
+        // one case in sixty: a near-miss far longer than any buffer - padding of about a buffer size (4 KiB ... 128 KiB), then a complete row
+        let long_noise = |t: &mut Tape, table: &DataTable| -> Option<String> {
+            if table.has_default() || (!table.json && table.cols.iter().any(|c| c.1 == Ty::Bool)) {
+                return None;
+            }
+            let values: Vec<crate::value::V> = table.cols.iter().map(|(_, ty)| crate::props::c04::small_value(t, *ty)).collect();
+            let full = table.line(&values, t);
+            let size = *t.pick(&[4096usize, 8192, 16384, 32768, 65536, 131072]) + t.draw(3) - 1;
+            Some(format!("{}{}", "x".repeat(size), full))
+        };
+        if t.chance(1, 60) {
+            if let Some(l) = long_noise(t, &g.table) {
+                noise.push((t.draw(base.len() + 1), l));
+            }
+        }
         noise.sort_by_key(|x| x.0);
         let mut joined_noise = Vec::new();
         if let Some(j) = &g.joined {
+            if t.chance(1, 30) {
+                if let Some(l) = long_noise(t, j) {
+                    joined_noise.push((t.draw(joined_base.len() + 1), l));
+                }
+            }
             let n = t.draw(5);
             for _ in 0..n {
                 if let Some(l) = gen_noise_line(t, j) {
@@ -334,7 +354,12 @@ impl Property for C06 {
         }
         obs.nontrivial = inside && after && stateful;
 
-        let context = format!("query: {}\n  tables: {}\n  base: {:?}\n  noise (position, line): {:?}\n  joined base: {:?}\n  joined noise: {:?}", clean.text, clean.defs, case.base, case.noise, case.joined_base, case.joined_noise);
+        let short = |l: &String| if l.len() > 400 { format!("{}...[{} bytes in all]...{}", &l[..40], l.len(), &l[l.len() - 120..]) } else { l.clone() };
+        let short_noise = |n: &Vec<(usize, String)>| n.iter().map(|(p, l)| (*p, short(l))).collect::<Vec<_>>();
+        if case.noise.iter().chain(case.joined_noise.iter()).any(|(_, l)| l.len() > 4000) {
+            obs.label("noise-longer-than-a-buffer");
+        }
+        let context = format!("query: {}\n  tables: {}\n  base: {:?}\n  noise (position, line): {:?}\n  joined base: {:?}\n  joined noise: {:?}", clean.text, clean.defs, case.base, short_noise(&case.noise), case.joined_base, short_noise(&case.joined_noise));
         let kind = if clean.statement.is_aggregate() { "aggregate" } else if case.query.join.is_some() { "join" } else if case.query.distinct { "distinct" } else if case.query.limit.is_some() { "limit" } else { "plain" };
         let limit0 = if case.query.limit == Some(0) { "+limit0" } else { "" };
 
